@@ -180,7 +180,8 @@ def check_property(prop, tier, repo, cfg, seed):
         cr = native_run.run_companion(repo, comp["file"], tests, seed=seed or 1,
                                       cases=comp.get("cases_thorough") if tier == "thorough" else comp.get("cases_quick"),
                                       stride=None if tier == "thorough" else comp.get("stride_quick"),
-                                      package=comp.get("package", "bitar"))
+                                      package=comp.get("package", "bitar"), deep=(tier == "thorough"),
+                                      timeout=comp.get("timeout_thorough", 1500) if tier == "thorough" else 420)
         info = {"file": comp["file"], "tests": tests, "status": cr["status"], "cases": cr["cases"],
                 "wall_s": round(cr["wall_s"], 1), "cmd": cr["cmd"], "bound": comp.get("bound", "")}
         companion_infos.append(info)
